@@ -335,11 +335,11 @@ def fill(rng, t, G):
 
 def g_leaf(rng, G):
     r = rng.random()
-    if r < 0.40:
+    if r < 0.36:
         return rng.choice(PURE)
-    if r < 0.46:
+    if r < 0.42:
         return fill(rng, rng.choice(ERR), G)
-    if r < 0.54:
+    if r < 0.49:
         return fill(rng, rng.choice(HALT), G)
     if r < 0.78:
         return fill(rng, rng.choice(INPUT), G)
@@ -846,11 +846,20 @@ def predict(R, c, home="/HOME", quirks=()):
     # order of $ARGS.named: command-line order within one option kind (several kinds: only with -S)
     order = {"arg": 0, "rawfile": 1, "slurpfile": 2, "argjson": 3}
     cmdline = []
-    for i, a in enumerate(R["argv"]):
+    argv = R["argv"]
+    i = 0
+    while i < len(argv):
+        a = argv[i]
         if a == "--":
             break
-        if a in ("--arg", "--argjson", "--slurpfile", "--rawfile") and i + 1 < len(R["argv"]):
-            cmdline.append(R["argv"][i + 1])
+        if a in ("--arg", "--argjson", "--slurpfile", "--rawfile"):
+            if i + 1 < len(argv):
+                cmdline.append(argv[i + 1])
+            i += 3
+        elif a in ("--from", "--to", "--indent"):
+            i += 2
+        else:
+            i += 1
     names = [n for n, _ in named]
     if sorted(cmdline) != sorted(names):
         raise Unjudged("binding-order")
